@@ -5,7 +5,7 @@ import traceback
 from fractions import Fraction as Fr
 
 from kvm import gen, ops
-from kvm.compare import elem_diff, show_elem, mv_dict, is_exact
+from kvm.compare import coef_is_zero, elem_diff, show_elem, mv_dict, is_exact
 
 META = {
     'level': 'exploration',
@@ -394,6 +394,16 @@ def one_program(ctx, alg, cfg, name, prog, plain_ns, reg_ns):
         ctx.case(cid)
         if st == 'exc':
             ctx.note_raised(got, mode)
+            if isinstance(got, (RecursionError, MemoryError)):
+                # the expanded expression is too deep for the Python compiler: a resource limit, like a timeout (inconclusive, not judged)
+                ctx.count(f'{mode}_resource_limit_not_judged')
+                continue
+            if isinstance(got, ZeroDivisionError) and all(coef_is_zero(v) for v in want_e.values()):
+                # the plain function reached the zero element through a structurally absent blade (x.e02 of a multivector that does not
+                # store e02 is the number 0, and 0 * y stores nothing), the compiled function carries the same zero as a VALUE and divides
+                # by it (sqrt / inverse / normalisation of an explicit zero): a singular point, representation dependent on both sides
+                ctx.count(f'{mode}_singular_point_zero_result_not_judged')
+                continue
             if prog.grammar == 1:
                 ctx.violation('registered function raises where the plain function returns', cid,
                               registered_outcome=f'{type(got).__name__}: {str(got)[:160]}', exc_type=type(got).__name__,
